@@ -11,7 +11,7 @@ from crosshair.statespace import context_statespace
 from crosshair.tracers import NoTracing, ResumedTracing
 
 STATS = {"windowed": 0, "full": 0, "queries": 0}
-MIN_LEN = 48
+MIN_LEN = 512
 
 
 class _Unknown(Exception):
